@@ -145,7 +145,9 @@ func VerifC17_PatternAgreesWithRegexp() {
 	hist := nondetChoice("history", 3)
 	for i := 0; i < hist; i++ {
 		hp := pats[nondetChoice("hist-pattern", len(pats))]
-		ValidatePattern("h", nondetStringUpTo("hist-value", 2), hp)
+		// earlier validations happen under the same context name as the checked one
+		// (two endpoints may validate a field of the same name with different patterns)
+		ValidatePattern("v", nondetStringUpTo("hist-value", 2), hp)
 	}
 	p := pats[nondetChoice("pattern", len(pats))]
 	v := nondetStringUpTo("value", 3)
@@ -174,7 +176,11 @@ func VerifC17_PatternCacheDistinguishesPatterns() {
 	}
 	verifAssume(alnum(s1) && alnum(s2) && s1 != s2)
 	p1, p2 := "^"+s1+"$", "^"+s2+"$"
-	ValidatePattern("h", s1, p1)
+	hname := "v"
+	if nondetBool("earlier-call-under-another-name") {
+		hname = "h"
+	}
+	ValidatePattern(hname, s1, p1)
 	got := ValidatePattern("v", s2, p2) == nil
 	want := regexp.MustCompile(p2).MatchString(s2)
 	verifAssert("verdict-of-this-pattern-not-of-an-earlier-one", got == want)
